@@ -133,3 +133,51 @@ Theorem C16_gs_names_defined_with_failed_drawings (mark : bool) (d : egsd) (p : 
   forall k v, In (Tgs k v) (toks s') -> lookup k (egs s') = Some v.
 Proof. exact (gs_names_defined_with_failed_drawings mark d p s'). Qed.
 Print Assumptions C16_gs_names_defined_with_failed_drawings.
+
+(* ------------------------------------------------------------------------------------------------ source *)
+(* The methods of weasyprint/pdf/stream.py as regenerated from the source on every run (gen/GenStream.v) and run by
+   the interpreter base/Py.v on the object encoding of model/C16Py.v (`super().m()` = the pydyf emitters, oracle
+   pydyf_call; `self.ctm` = the regenerated getter).  Stated with qualified names: proofs/C16_gen_stream.v. *)
+Require WV.base.Py WV.model.C16Py WV.proofs.C16_gen_stream.
+
+(* push_state / pop_state / begin_text / end_text / set_font_size / end_marked_content, executed from their regenerated
+   bodies on the encoding of ANY model state, return the encoding of the model's successor state, and raise exactly
+   when the model has none (IndexError: empty ctm stack; AssertionError: pop_state would empty it) *)
+Theorem C16_source_methods_compute_model (tagf : WV.base.Py.val -> String.string) (mk : list WV.base.Py.val)
+    (others : list (String.string * WV.base.Py.val)) (o : op) (s : st) :
+  WV.proofs.C16_gen_stream.tied o = true ->
+  WV.proofs.C16_gen_stream.src_call tagf o (WV.model.C16Py.enc mk others s) =
+  match mstep o s with
+  | Some s' => inl (WV.model.C16Py.enc mk others s', WV.base.Py.VNone)
+  | None => inr (WV.proofs.C16_gen_stream.err_of o s)
+  end.
+Proof. exact (WV.proofs.C16_gen_stream.gen_tied_step tagf mk others o s). Qed.
+Print Assumptions C16_source_methods_compute_model.
+
+(* sequences: these methods run from their regenerated bodies, every other call by any function on objects that
+   agrees with the model (impl_ok); the run follows the model's run, call by call, errors included *)
+Theorem C16_source_run_follows_model (tagf : WV.base.Py.val -> String.string)
+    (others : list (String.string * WV.base.Py.val)) (impl : op -> WV.base.Py.val -> option WV.base.Py.val)
+    (ops : list op) (mk : list WV.base.Py.val) (s : st) :
+  WV.proofs.C16_gen_stream.impl_ok others impl ->
+  match run ops s with
+  | Some s' => exists mk', WV.proofs.C16_gen_stream.grun tagf impl ops (WV.model.C16Py.enc mk others s) =
+                           Some (WV.model.C16Py.enc mk' others s')
+  | None => WV.proofs.C16_gen_stream.grun tagf impl ops (WV.model.C16Py.enc mk others s) = None
+  end.
+Proof. intros H. exact (WV.proofs.C16_gen_stream.grun_model tagf others impl H ops mk s). Qed.
+Print Assumptions C16_source_run_follows_model.
+
+(* C16_balanced_calls_give_balanced_tokens about the regenerated methods: every well-bracketed sequence of calls on a
+   fresh Stream object runs without raising and leaves in self.stream (= map etok (rev (toks s'))) a token list that
+   is properly nested over q/Q, BT/ET, BMC|BDC/EMC; the ctm stack is back to one entry *)
+Theorem C16_source_balanced_calls_give_balanced_tokens (tagf : WV.base.Py.val -> String.string)
+    (others : list (String.string * WV.base.Py.val)) (impl : op -> WV.base.Py.val -> option WV.base.Py.val)
+    (mark : bool) (d : egsd) (ops : list op) :
+  WV.proofs.C16_gen_stream.impl_ok others impl -> wb ops = true ->
+  exists s' mk', WV.proofs.C16_gen_stream.grun tagf impl ops (WV.model.C16Py.enc [] others (fresh mark d)) =
+                 Some (WV.model.C16Py.enc mk' others s') /\
+    nested (rev (toks s')) = true /\ dyck_q (rev (toks s')) = true /\ dyck_text (rev (toks s')) = true /\
+    dyck_mc (rev (toks s')) = true /\ length (ctms s') = 1%nat.
+Proof. intros H. exact (WV.proofs.C16_gen_stream.source_balanced tagf others impl H mark d ops). Qed.
+Print Assumptions C16_source_balanced_calls_give_balanced_tokens.
